@@ -239,7 +239,7 @@ def pool(program, d, with_arrays=False):
         [], [1, 2], [1.5, 2], ["1", "2.5"], ["1", "x"], ["A", "F"], ["A", "A"], ["F"], ["A", "Nope"], [A, F], [A], [U], [[1], [2, 3]], [[1], 2], [[]], [["A"]],
         [True, "false", 0], [None], (1, 2), ("A",), [Argument("x", 5)], [Argument("x", "A")], [Argument("x", [1])], [1, [2, [3]]],
         {}, {"a": "b"}, {"a": 1}, {1: 2}, {"k": None}, {"a": "b", "c": "d"}, {"a": [1]},
-        A, F, U, float, int, numpy.float64, numpy.uint, str, None,
+        A, F, U, float, int, numpy.float64, numpy.uint, str, None, program._foreign[0], program._foreign[1], [program._foreign[0]], [A, program._foreign[1]],
         Argument("P", 5), ListArgument("P", [1, 2], 1, [1, 1]),
     ]
     if with_arrays:
@@ -301,6 +301,13 @@ def _world(ctx, wd):
     # finished producers of non-array results (what user libraries return): a tuple of numeric texts, a number, a text
     for nm, val in (("TupleRes", ("1", "2.5", 3)), ("NumRes", 5), ("TextRes", "7")):
         arr.standin(program, nm, val)
+    # commands that are not part of this program: one from another program, one built by hand
+    other = arr.new_program(working_dir=d if wd == "abs" else None)
+    program._foreign = [arr.standin(other, "Foreign", numpy.ma.array([4.0, 5.0]), fuzzy=False)]
+    from mpilot.commands import Command
+    loose = Command("Loose", [], program=None)
+    loose.is_finished, loose._result = True, numpy.ma.array([1.0])
+    program._foreign.append(loose)
     return program, d
 
 
